@@ -8,7 +8,7 @@ func init() {
 	specs["C14"] = &checkSpec{
 		id:    "C14",
 		level: "exploration",
-		rule: "one evaluation = one simulated world (1-3 shared Loop/Polygon/ShapeIndex objects, index never built / built / stale) with 1-2 bursts of 2-6 real goroutines each issuing 1-6 read-only queries, executed under the one-runner scheduler on a schedule drawn from the choice tape (strategies: serial baseline, per-site-class random preemption, PCT priorities, single preemption). " +
+		rule: "one evaluation = one simulated world (1-3 shared Loop/Polygon/ShapeIndex objects, index never built / built / stale) with 1-2 bursts of 2-6 real goroutines each issuing 1-6 read-only queries (up to 8 goroutines and 10 queries in the thorough tier; point/cell containment, loop/polygon relations, the three query types with their own query objects, cell walks, bounds, area/centroid/validation, encoding), executed under the one-runner scheduler on a schedule drawn from the choice tape (strategies: serial baseline, per-site-class random preemption, PCT priorities, single preemption). " +
 			"A case is non-trivial when at least one preemption was actually injected; distinct = distinct hash of the sequence of (task, sync-site) events of all bursts. Oracles on every run: Go race detector (hand-off invisible to it), answers equal to a serial run on a clone (lazy or prebuilt index), deadlock/self-deadlock decided by the lock model, step-bounded progress after the last preemption, recovered panics, post-burst index cell list equal to the serial clone's.",
 		explanation: "deterministic simulation of caller goroutines over real s2 code; seeded search over schedules",
 		assumptions: []string{
@@ -28,7 +28,7 @@ func init() {
 	specs["C13"] = &checkSpec{
 		id:    "C13",
 		level: "exploration",
-		rule: "one evaluation = one operation history (1-25 steps over 1-3 long-lived objects: Add, Build, Reset, Invert, Normalize, encode-decode-continue, creation and reuse of EdgeQuery/CrossingEdgeQuery/ContainsPointQuery, queries of every family) run as one simulated task under the lock model; every query answer is compared with the answer of the same query on fresh objects that reach the same state by mutations only (plus, for loops, a new loop made from the current vertices, and inversions reduced mod 2). " +
+		rule: "one evaluation = one operation history (1-25 steps, 45 in the thorough tier, over 1-3 long-lived, overlapping objects: Add, Build, Reset, Invert, Normalize, encode-decode-continue, creation and reuse of EdgeQuery/CrossingEdgeQuery/ContainsPointQuery and of distance target objects, option changes on a live EdgeQuery, queries of every family with a per-run random mix, dense question sequences on freshly created query objects, recycled arguments) run as one simulated task under the lock model; every query answer is compared with the answer of the same query on fresh objects that reach the same state by mutations only (plus a new loop/polygon made from the current vertices, and inversions reduced mod 2). " +
 			"Non-trivial = the history has at least two steps of at least two kinds and at least one query; distinct = distinct hash of the step sequence (kinds, objects, query kinds, reuse).",
 		explanation: "refinement of long-lived objects against fresh-object reference; self-deadlock decided by the lock model",
 		assumptions: []string{
@@ -49,7 +49,7 @@ func init() {
 	specs["C15"] = &checkSpec{
 		id:    "C15",
 		level: "fault_enumeration",
-		rule: "corpus entries are valid encodings produced by the library's own encoders from seeded values of all nine encodable types (both polygon formats, snapped/unsnapped/mixed vertices, 0..many loops, empty/full). c15enum: for every corpus entry EVERY truncation length, single-bit flip, single-byte overwrite {00,7f,80,ff}, 4- and 8-byte little-endian and varint count forgery (2^31-1 .. 2^64-1) at every offset, and a hard read error at every offset, each under two reader shapes (io.ByteReader; plain reader delivering 1 byte per Read). c15seq: seeded sequences of 1-6 mixed faults, random bytes, splices, cross-type decoding, under drawn chunking/EOF/zero-read/transient-error behaviour. " +
+		rule: "corpus entries are valid encodings produced by the library's own encoders from seeded values of all nine encodable types (both polygon formats, snapped/unsnapped/mixed vertices, 0..many loops, empty/full). c15enum: for every corpus entry EVERY truncation length, single-bit flip, single-byte overwrite {00,7f,80,ff}, 4- and 8-byte little-endian and varint count forgery (2^31-1 .. 2^64-1) at every offset, and a hard read error at every offset, each under three reader shapes (io.ByteReader; plain reader delivering 1 byte per Read; file-like seekable reader with 7/3/64-byte reads). c15seq: seeded sequences of 1-6 mixed faults, random bytes, splices, loop-level re-assembly of lossless polygons (zero-vertex/empty/full loops inserted, loops duplicated/dropped/swapped, count off by one), cross-type decoding, under drawn chunking/EOF/zero-read/transient-error behaviour. " +
 			"evaluations = decodes performed; distinct_nontrivial = distinct damaged byte strings (hash), summed per corpus entry for c15enum plus distinct (stream, reader) signatures for c15seq. Oracle: Decode returns; no panic; no fatal abort (workers run under an address-space cap, so an allocation for an unchecked count is an observable abort); no stall; a returned value survives containment, bounds, edge, cell and re-encode calls.",
 		explanation: "fault enumeration on the stored bytes and the read stream of every Decode method, in capped worker processes",
 		assumptions: []string{
@@ -69,7 +69,7 @@ func init() {
 	specs["C09"] = &checkSpec{
 		id:    "C09",
 		level: "fault_enumeration",
-		rule: "values of all nine encodable types come from a seeded workload generator steered at what the property names (polygons whose vertices are cell centres of one level, of mixed levels, partly snapped, unsnapped; near cube edges and corners; 0..many loops, holes, reversed loops). c09benign: Encode -> simulated medium -> Decode under the two extreme reader shapes and one drawn benign behaviour (chunk sizes, (n,EOF), (0,nil), ByteReader or not): the decoded value must be bit-identical, answer a sample of queries identically, re-encode to identical bytes, and two encodings of one value must be identical. c09hard: for EVERY write call k of the encoding the k-th Write fails (permanent/transient x whole/short) and for EVERY byte offset the medium crashes: an Encode that returns nil must have stored exactly the fault-free bytes. " +
+		rule: "values of all nine encodable types come from a seeded workload generator steered at what the property names (polygons whose vertices are cell centres of one level, of mixed levels, partly snapped, unsnapped; near cube edges and corners; 0..many loops, holes, reversed loops). c09benign: Encode -> simulated medium -> Decode under three fixed reader shapes (ByteReader; 1 byte per Read; file-like seekable with reads straddling 4096) and one drawn benign behaviour (chunk sizes, (n,EOF), (0,nil), shape), and once into a receiver that already holds another value of the type: the decoded value must be bit-identical, answer a sample of queries identically, re-encode to identical bytes, and two encodings of one value must be identical. c09hard: for EVERY write call k of the encoding the k-th Write fails (permanent/transient x whole/short) and for EVERY byte offset the medium crashes: an Encode that returns nil must have stored exactly the fault-free bytes. " +
 			"evaluations = decode round trips (benign) plus faulted encodes (hard); distinct_nontrivial = distinct encodings (hash) longer than 9 bytes / with at least two writes.",
 		explanation: "the stream clause of the property is decided by fault enumeration on the write side and benign-behaviour enumeration on the read side; the value space is reached only by seeded workload generation, which is said plainly: it is not where simulation has leverage",
 		assumptions: []string{
